@@ -1633,15 +1633,8 @@ func (n *node) spawn(factory gen.ProcessFactory, options gen.ProcessOptionsExtra
 		important:   options.ImportantDelivery,
 	}
 
-	if options.Register != "" {
-		if _, exist := n.names.LoadOrStore(options.Register, p); exist {
-			return p.pid, gen.ErrTaken
-		}
-		p.name = options.Register
-		p.registered.Store(true)
-	}
-
-	// init mailbox
+	// init mailbox. it must exist before the process can be found by its
+	// name: a sender that resolves the name uses it right away
 	if options.MailboxSize > 0 {
 		p.fallback = options.Fallback
 		p.mailbox.Main = lib.NewQueueLimitMPSC(options.MailboxSize, false)
@@ -1653,6 +1646,14 @@ func (n *node) spawn(factory gen.ProcessFactory, options gen.ProcessOptionsExtra
 		p.mailbox.System = lib.NewQueueMPSC()
 		p.mailbox.Urgent = lib.NewQueueMPSC()
 		p.mailbox.Log = lib.NewQueueMPSC()
+	}
+
+	if options.Register != "" {
+		if _, exist := n.names.LoadOrStore(options.Register, p); exist {
+			return p.pid, gen.ErrTaken
+		}
+		p.name = options.Register
+		p.registered.Store(true)
 	}
 
 	// create pid
